@@ -20,7 +20,7 @@ ROUTES = ["scalar.CreateCopy.category", "array.CreateCopy.category", "fixedarray
           "db.Convert.int", "db.Convert.list", "db.Convert.tuple", "db.Convert.numpy", "array.GetValues.list", "array.GetValues.tuple",
           "array.GetValues.numpy", "array.GetValues.tuples", "array.CreateCopy", "fixedarray.IndexAsScalar", "fixedarray.ChangingIndex",
           "manager.ConvertToCurrent", "manager.ConvertScalarToCurrent", "category-default", "own-unit.simple", "own-unit.derived",
-          "db.Convert.exp", "db.Convert.exp1"]
+          "db.Convert.exp", "db.Convert.exp1", "clear_refill"]
 BOUNDS = {
     "quick": "values: all reals; %d routes; container lengths 0..3; unit pairs: a kind-covering set (scale, affine, identity, legacy spelling, "
              "category != quantity type, unknown) for every route, plus every unit <-> base of 40 seeded quantity types for the scalar routes; "
@@ -47,7 +47,7 @@ def items(tier, seed):
     out = []
     for qt, cat, u, v in COVER:
         for r in ROUTES:
-            if r in ("own-unit.derived", "db.Convert.exp", "db.Convert.exp1"):
+            if r in ("own-unit.derived", "db.Convert.exp", "db.Convert.exp1", "clear_refill"):
                 continue
             for n in ([2] if not r.split(".")[-1] in ("list", "tuple", "numpy", "tuples") and "array" not in r else [1, 2, 3] if r.endswith("tuples") else [0, 1, 3]):
                 out.append({"r": r, "qt": qt, "cat": cat, "u": u, "v": v, "n": n})
@@ -56,6 +56,9 @@ def items(tier, seed):
         for r in ("db.Convert.float", "db.Convert.list", "db.Convert.tuple", "db.Convert.numpy", "array.GetValues.list", "array.GetValues.tuple", "array.GetValues.numpy",
                   "array.GetValues.tuples", "array.CreateCopy", "scalar.GetValue", "quantity.Convert", "fixedarray.IndexAsScalar"):
             out.append({"r": r, "qt": qt, "cat": qt, "u": u, "v": v, "n": 2, "dbk": "simple"})
+    # history: the same database object emptied with Clear() and configured again with another definition of the unit
+    for order in (0, 1):
+        out.append({"r": "clear_refill", "qt": "length", "cat": "length", "u": "ft", "v": "m", "n": 2, "order": order})
     # units spelled as one (unit, 1) pair: the same conversion as the plain spelling, offsets and negative amounts included, every value kind
     for qt, cat, u, v in COVER:
         for vk in ("float", "list", "tuple", "numpy"):
@@ -86,11 +89,11 @@ def items(tier, seed):
             us = db.GetUnits(qt)
             allp += [(qt, u, v) for u in us for v in us if u != v]
         for qt, u, v in seeded_sample(allp, 12000, seed):
-            r = rng.choice([x for x in ROUTES if x not in SCALAR_ROUTES and x not in ("own-unit.derived", "db.Convert.exp", "db.Convert.exp1", "category-default")])
+            r = rng.choice([x for x in ROUTES if x not in SCALAR_ROUTES and x not in ("own-unit.derived", "db.Convert.exp", "db.Convert.exp1", "category-default", "clear_refill")])
             out.append({"r": r, "qt": qt, "cat": qt, "u": u, "v": v, "n": rng.choice([1, 2, 3])})
     out[0]["canary"] = True
     for i, c in enumerate(out):
-        if i % 2 == 0 and c["r"] not in ("category-default", "own-unit.derived") and not c.get("dbk"):
+        if i % 2 == 0 and c["r"] not in ("category-default", "own-unit.derived", "clear_refill") and not c.get("dbk"):
             c["prelude"] = True
     rng.shuffle(out)
     return out
@@ -240,7 +243,13 @@ def run(cfg, V):
             sdb.AddCategory("c_sym", qt, default_unit=u, default_value=V["d"])
             s = Scalar("c_sym", unit=v)
             s_def = Scalar("c_sym")
-            return {"vals": [s.GetValue()], "flat_in": [V["d"]], "meta": _meta(s), "def_is": s_def.GetValue() is V["d"] and s_def.GetUnit() == sdb.GetInfo(qt, u).unit,
+            from barril.units import FractionScalar
+
+            qv = ObtainQuantity(v, "c_sym")
+            fl = lambda o: o.GetValue().__float__() if hasattr(o.GetValue(), "GetFraction") else o.GetValue()  # noqa: E731
+            # every way of building an object from the category default in the unit v: category + unit, the quantity alone, CreateWithQuantity
+            alts = [Scalar(qv).GetValue(), Scalar.CreateWithQuantity(qv).GetValue(), fl(FractionScalar("c_sym", unit=v)), fl(FractionScalar(qv))]
+            return {"vals": [s.GetValue()] + alts, "flat_in": [V["d"]] * 5, "meta": _meta(s), "def_is": s_def.GetValue() is V["d"] and s_def.GetUnit() == sdb.GetInfo(qt, u).unit,
                     "src": {"cat": "c_sym", "qt": qt}}
     if r == "own-unit.simple":
         s = Scalar(x, u, cat)
@@ -267,6 +276,30 @@ def run(cfg, V):
         e = cfg["e"]
         res = db.Convert(qt, [(u, e)], [(v, e)], x)
         return {"vals": [res]}
+    if r == "clear_refill":
+        f1, f2 = (0.25, 0.3048) if cfg["order"] == 0 else (0.3048, 0.5)
+        sdb = UnitDatabase()
+
+        def fill(f):
+            sdb.AddUnitBase("length", "meters", "m")
+            sdb.AddUnit("length", "feet", "ft", lambda t, f=f: t / f, lambda t, f=f: t * f)
+            sdb.AddCategory("length", "length")
+            sdb.AddCategory("depth", "length", default_unit="ft", default_value=V["x1"])
+
+        with pushed(sdb):
+            fill(f1)
+            first = [Scalar(x, "ft").GetValue("m"), Scalar(x, "ft", "depth").GetValue("m"), Array([x], "ft").GetValues("m")[0], Scalar("depth", unit="m").GetValue()]
+            sdb.Clear()
+            fill(f2)
+            s = Scalar(x, "ft")
+            o = _Owner()
+            o.s = Scalar(x, "ft", "depth")
+            ChangeScalars(o, s=(None, "m"))
+            second = [s.GetValue("m"), s.CreateCopy(unit="m").GetValue(), o.s.GetValue(), ObtainQuantity("ft", "depth").ConvertScalarValue(x, "m"), ObtainQuantity("ft").Convert(x, "m"),
+                      sdb.Convert("length", "ft", "m", x), Array([x], "ft").GetValues("m")[0], FixedArray(2, [x, x], "ft").IndexAsScalar(0, ObtainQuantity("m", "depth")).GetValue(),
+                      FixedArray(2, [0.0, 0.0], "m").ChangingIndex(0, Scalar(x, "ft"), use_value_unit=False).GetValues()[0]]
+            dflt = Scalar("depth", unit="m").GetValue()
+        return {"first": first, "second": second, "dflt": dflt, "f": (f1, f2)}
     if r == "db.Convert.exp1":
         xs = _xs(cfg, V)
         vk = cfg["vk"]
@@ -287,6 +320,12 @@ def props(cfg, T, obs):
         return [("conversion inside one quantity type does not raise", False)]
     db = get_db(cfg.get("dbk", "default"))
     P = []
+    if r == "clear_refill":
+        from symx.core import rv
+
+        f1, f2 = (rv(f) for f in obs["f"])
+        return [("after Clear() and a new configuration of the same database object every route converts with the NEW definition of the unit",
+                 z3.And(*[approx(o, T["x0"] * f1) for o in obs["first"][:3]], approx(obs["first"][3], T["x1"] * f1), *[approx(o, T["x0"] * f2) for o in obs["second"]], approx(obs["dflt"], T["x1"] * f2)))]
     if r == "db.Convert.exp1":
         ins = [T["x%d" % i] for i in range(len(obs["vals"]))]
         return [("units spelled [(u, 1)] / ((u, 1),) convert exactly like the plain spelling, element by element",
@@ -316,7 +355,7 @@ def props(cfg, T, obs):
         elif "flat_in" in obs:
             ins = [term(t) for t in obs["flat_in"]] if not isinstance(obs["flat_in"][0], z3.ExprRef) else obs["flat_in"]
             if r == "category-default":
-                ins = [T["d"]]
+                ins = [T["d"]] * len(obs["vals"])
             elif r.endswith("CreateCopy.category"):
                 ins = [T["x0"]] * len(obs["vals"])
             elif r == "fixedarray.IndexAsScalar":
